@@ -63,8 +63,13 @@ def gen_sessions(ctx):
             ln = rng.choice([0, 1, 12, 23, 24, 25, 30, 47, 48, 49, 60, 72, 100, 144, rng.randrange(0, 145)])
             t = rng.choice([0, 1, 2, 3, 64, 65, 84, 127, rng.randrange(0, 128)])
             to = rng.choice([0, 0o11, 0o21])
-            reuse = bool(msgs) and how != "multicast" and msgs[-1]["how"] != "multicast" and rng.random() < 0.45
-            if reuse:
+            if rng.random() < 0.12:
+                how = "loopback"  # to the node's own address: queued for its own application
+            reuse = (bool(msgs) and how not in ("multicast", "loopback")
+                     and msgs[-1]["how"] not in ("multicast", "loopback") and rng.random() < 0.45)
+            if reuse and rng.random() < 0.5:
+                # same header object, same fields; otherwise the application re-addresses /
+                # re-types the object it kept (the fields are public attributes)
                 t, to = msgs[-1]["type"], msgs[-1]["to"]
             msgs.append({"how": how, "len": ln, "type": t, "to": to, "reuse": reuse})
         outage = None
@@ -131,8 +136,31 @@ def run_session(ctx, case):
                     ret = obj.multicast(msg, t, 2)
                     to = 0o100
                     fid = obj.frame_buf.header.frame_id
+                elif how == "loopback":
+                    hdr = Hdr(me, t)
+                    fid = hdr.frame_id
+                    buf = bytearray(msg)
+                    while obj.available():
+                        obj.read()
+                    ret = obj.send(hdr, buf)
+                    buf[:] = b"\xEE" * len(buf)  # the caller re-uses its buffer
+                    hdr.reserved = 0xEE
+                    got = obj.read()
+                    ctx.clause("loopback_frame_intact")
+                    if (ret is not True or got is None or bytes(got.message) != msg or got.header.from_node != me
+                            or got.header.to_node != me or got.header.frame_id != fid or got.header.message_type != t):
+                        ctx.violation("loopback-frame", "%d-byte type-%d message sent to the node's own address: send() "
+                                      "-> %r, read() -> %s" % (n, t, ret, None if got is None else
+                                                             (got.header.to_string(), bytes(got.message).hex()[:40])), case)
+                        return
+                    if len(rig.air.log) != air0:
+                        ctx.violation("loopback-frame", "a message to the node's own address went on air", case)
+                        return
+                    prev = None
+                    continue
                 else:
                     hdr = prev if (mm["reuse"] and prev is not None) else Hdr(to, t)
+                    hdr.to_node, hdr.message_type = to, t
                     fid = hdr.frame_id
                     ret = obj.send(hdr, msg) if how == "send" else obj.write(Frame(hdr, msg))
             except W.VirtualDeadline:
